@@ -19,7 +19,14 @@ func TestProp(t *testing.T) {
 	)
 	// the parts' important classes: every coverage-matrix cell must have had an offender
 	for _, c := range allCells() {
-		r.RequireLabel("cell:" + c)
+		switch c {
+		case "ID:null:bare", "custom:null:bare":
+			// no value can be an offender here (null is allowed, every kind is accepted or
+			// tolerated): demand that mutations hit the cell
+			r.RequireLabel("cellmut:" + c)
+		default:
+			r.RequireLabel("cell:" + c)
+		}
 	}
 	r.RequireLabel(
 		"off:none", "off:kind:null", "off:kind:type", "off:under-list", "off:nonnull-chain>=2", "off:at-root-field", "off:in-abstract",
